@@ -17,7 +17,7 @@ from ..world import World, digest_obj, objects_only, store_snapshot
 
 # universe ------------------------------------------------------------------
 A = {"p": MD5["x"], "q": MD5["y"]}
-B = {"p": MD5["x"], "r": MD5["z"]}
+B = {"caf\u00e9": MD5["x"], "cafe\u0301": MD5["z"]}   # two names that differ only in Unicode normalisation form
 C = {"s/t": MD5["w"], "p": MD5["x"]}
 TREES = {"A": A, "B": B, "C": C}
 TREE_BYTES = {k: ref.tree_bytes(v) for k, v in TREES.items()}
@@ -30,11 +30,11 @@ ABSENT = ref.md5(b"absent-object")
 
 def universe(tier):
     objs = ["A", "B", "x", "y", "z", "Araw"]
-    used = ["A", "B", "x", "absent", "sha256:y", "sha256:A", "Araw"]
+    # "twin:" = the same value named by the other of md5 / md5-dos2unix; listed before the store's own ids
+    used = ["twin:x", "twin:A", "A", "B", "x", "absent", "sha256:y", "Araw"]
     if tier == "thorough":
         objs = ["A", "B", "C", "x", "y", "z", "w", "Araw"]
-        used = ["A", "B", "C", "x", "w", "absent", "sha256:y", "sha256:A", "absentdir", "md5-dos2unix:absentdir",
-                "Araw"]
+        used = ["twin:x", "twin:A", "A", "B", "C", "x", "w", "absent", "sha256:y", "absentdir", "Araw"]
     return objs, used
 
 
@@ -52,19 +52,21 @@ def bytes_of(name):
     return CONTENTS[name]
 
 
-def used_infos(names):
+def used_infos(names, store_alg="md5"):
     out = []
     for n in names:
         if n == "absent":
-            out.append(hi(ABSENT))
+            out.append(hi(ABSENT, store_alg))
         elif n == "absentdir":
-            out.append(hi(ref.tree_oid({"k": ABSENT})))
+            out.append(hi(ref.tree_oid({"k": ABSENT}), store_alg))
         elif ":" in n:
             alg, what = n.split(":")
+            if alg == "twin":
+                alg = "md5-dos2unix" if store_alg == "md5" else "md5"
             v = ref.tree_oid({"k": ABSENT}) if what == "absentdir" else oid_of(what)
             out.append(hi(v, alg))
         else:
-            out.append(hi(oid_of(n)))
+            out.append(hi(oid_of(n), store_alg))
     return out
 
 
@@ -75,7 +77,7 @@ def subsets(xs):
 
 def cases(tier):
     objs, used = universe(tier)
-    for kind in ("local", "base"):
+    for kind in ("local", "base", "legacy"):
         for store in subsets(objs):
             yield {"kind": kind, "store": list(store), "tier": tier}
 
@@ -88,12 +90,19 @@ def run_one(kind, store, used, shallow, dry, cachemode, read_only=False, cache_r
 
     viol = []
     with World() as w:
-        odb = make_odb(kind, w.p("store"), read_only=read_only)
+        store_alg = "md5"
+        if kind == "legacy":
+            # a LocalHashFileDB of the legacy algorithm (all contents of the alphabet are binary / LF-only:
+            # both algorithms give them the same value)
+            store_alg = "md5-dos2unix"
+            odb = make_odb("local", w.p("store"), read_only=read_only, hash_name="md5-dos2unix")
+        else:
+            odb = make_odb(kind, w.p("store"), read_only=read_only)
         for n in store:
             put_raw(odb, oid_of(n), bytes_of(n))
         cache_odb = None
         if cachemode == "cache":
-            cache_odb = make_odb("local", w.p("cache"), read_only=cache_ro)
+            cache_odb = make_odb("local", w.p("cache"), read_only=cache_ro, hash_name=store_alg)
             for n in TREES:
                 put_raw(cache_odb, oid_of(n), bytes_of(n))
         if unpacked:
@@ -135,7 +144,7 @@ def run_one(kind, store, used, shallow, dry, cachemode, read_only=False, cache_r
         try:
             ret = gc(
                 odb,
-                used_infos(used),
+                used_infos(used, store_alg),
                 cache_odb=cache_odb,
                 shallow=shallow,
                 dry=dry,
@@ -284,7 +293,9 @@ def run(ctx):
     ctx.rule = (
         "E1 product: every subset of the object universe as store content x every "
         "subset of the used universe x {shallow,expand(self|cache_odb)} x {dry,real} x "
-        "{LocalHashFileDB,HashFileDB}, plus read-only refusal; non-trivial = store has "
+        "{LocalHashFileDB,HashFileDB,LocalHashFileDB of the legacy md5-dos2unix algorithm}, plus read-only refusal; "
+        "the used universe lists ids of the twin algorithm (same value, md5 <-> md5-dos2unix) before the store's own; "
+        "tree B lists two names that differ only in Unicode normalisation form; non-trivial = store has "
         ">=2 objects incl. a directory object and the used set is non-empty"
     )
     ctx.bound = {"objects": objs, "used_universe": used,
